@@ -8,6 +8,7 @@ import Shutter.Drive.App
 import Shutter.Spec.SaveFile
 import Shutter.Drive.Events
 import Shutter.Drive.TriggerDef
+import Shutter.Drive.Api
 
 open Shutter
 
@@ -19,6 +20,7 @@ def dispatch (st : DState) (line : String) : DState × String :=
   | "APP" :: rest =>
     let (a, out) := Drive.App.step st.app rest
     ({ st with app := a }, out)
+  | "API" :: rest => (st, Drive.Api.step rest)
   | "TD" :: rest => (st, Drive.TriggerDef.step rest)
   | "EV" :: rest => (st, Drive.Events.step rest)
   | "SAVE" :: rest => (st, SaveFile.driverStep rest)
